@@ -735,6 +735,9 @@ impl TransactionBuilder {
   }
 }
 
+#[cfg(ordinals_ord_verif)]
+pub mod verif;
+
 #[cfg(test)]
 mod tests {
   use {super::Error, super::*};
